@@ -58,6 +58,8 @@ func VerifC09_V1(v *VerifV) {
 		v.Cover("rejected")
 		// rejected before execution: nonce untouched; the caller (commitBlock) reverts the rest
 		v.Assert(st.GetNonce(verifFrom) == n0, "C09.tx.rejected-tx-bumped-nonce")
+		// and it uses none of the block's gas (the pool decreases by exactly the gas used)
+		v.Assert(gp.Gas() == pool0, "C09.tx.rejected-tx-consumed-block-gas")
 		return
 	}
 	v.Cover("executed")
